@@ -22,9 +22,12 @@ from .export import single_def
 TYPE = "variable::r#type::Type"
 DISPLAY = "<%s as std::fmt::Display>::fmt"
 SAMPLES = {"plain": "int", "multi": "int|float", "never": "!", "function": "()->int", "function_multi": "()->(int|float)",
-           "mut": "mut int", "array": "[int]", "tuple": "(int, float)", "void": "()", "any": "any"}
+           "mut": "mut int", "array": "[int]", "tuple": "(int, float)", "void": "()", "any": "any",
+           "function_uparam": "(int|float)->int", "function_fn_result": "()->(int|float)->int", "mut_multi": "mut (int|float)",
+           "function_params": "(int, float)->int"}
 TOP_RULE = {"plain": "int_type", "multi": "multi", "never": "never", "function": "function_type", "function_multi": "function_type",
-            "mut": "mut_type", "array": "array_type", "tuple": "tuple_type", "void": "void", "any": "any"}
+            "mut": "mut_type", "array": "array_type", "tuple": "tuple_type", "void": "void", "any": "any",
+            "function_uparam": "function_type", "function_fn_result": "function_type", "mut_multi": "mut_type", "function_params": "function_type"}
 
 
 class Undecided(Exception):
@@ -347,7 +350,8 @@ def kinds_for(conds, src):
         return ["multi"]
     if c.get(("never", src)) is True:
         return ["never"]
-    ks = ["plain", "function", "function_multi", "mut", "array", "tuple", "void", "any"]
+    ks = ["plain", "function", "function_multi", "function_uparam", "function_fn_result", "function_params", "mut", "mut_multi", "array", "tuple",
+          "void", "any"]
     if ("multi", src) not in c:
         ks.append("multi")
     if ("never", src) not in c:
